@@ -27,6 +27,8 @@ type item struct {
 	marks []int
 	aux   []int
 	sub   string // sub-profile name, for counters
+	// only restricts the case to these variants (nil = the check's list)
+	only []mach.Variant
 }
 
 // judgeFn evaluates one fully determined case for a property and returns the
@@ -233,6 +235,9 @@ func (w *check) Run(b api.Batch) *api.Result {
 			res.Count("idiom:"+t, 1)
 		}
 		vs := w.variants
+		if it.only != nil {
+			vs = it.only
+		}
 		if w.perCase > 0 && w.perCase < len(vs) {
 			// a seeded subset, rotating so that every variant is visited equally often
 			start := idx % len(vs)
